@@ -20,7 +20,7 @@
 (* tail test is skipped when start = len, i.e. there is no tail segment);   *)
 (* PurgeGuard = FALSE is the code before it, kept to show that TLC finds    *)
 (* the drain-then-wrap counterexample (WindowRing_prefix.cfg).              *)
-EXTENDS WindowTime
+EXTENDS WindowTime, IOUtils
 
 CONSTANTS PurgeGuard
 
@@ -160,6 +160,10 @@ RingEmitsBufNoHist ==
       remit[g] # <<>> =>
         LET b == st[g].buf IN remit[g][1] = IF cfg.every = 0 THEN b ELSE SubSeq(b, 1, Len(b) - 1)
 RingView == <<cfg, st, n, ring, hit, remit>>
+
+(* Transition cover: with C03_COVER=<branch> in the environment a violation *)
+(* of CoverNotHit is a (breadth-first, hence short) input reaching it.      *)
+CoverNotHit == \A g \in Groups : IOEnv.C03_COVER \notin hit[g]
 
 RingWellFormed ==
     \A g \in Groups :
